@@ -106,8 +106,23 @@ func renderDC(s sdf.SDF3, which string, cells int) (ts []*sdf.Triangle3, outcome
 			}
 		}()
 		switch which {
-		case "dc2":
+		case "dc2", "dc2p0", "dc2re":
 			r := dc.NewDualContouringDefault(cells) // FarAway 0.499999: vertex clamped to its cell
+			if which == "dc2p0" {
+				// clamping on, no push of the vertex towards the cell centre
+				r = dc.NewDualContouringV2(0.499999, 0, 0, 1, 1e-4, 1000, cells)
+			}
+			if which == "dc2re" {
+				// the same renderer object has rendered a DIFFERENT shape on the same lattice before
+				prev := &boxed{s: otherShape(s), bb: s.BoundingBox()}
+				pch := make(chan []*sdf.Triangle3, 64)
+				go func() {
+					for range pch {
+					}
+				}()
+				r.Render(prev, pch)
+				close(pch)
+			}
 			ch := make(chan []*sdf.Triangle3, 64)
 			var wg sync.WaitGroup
 			wg.Add(1)
@@ -151,6 +166,13 @@ func renderDC(s sdf.SDF3, which string, cells int) (ts []*sdf.Triangle3, outcome
 		fatal("renderer %s did not return within 600 s", which)
 	}
 	return
+}
+
+// otherShape: a ball filling about a third of the box of s (a different solid on the same lattice)
+func otherShape(s sdf.SDF3) sdf.SDF3 {
+	bb := s.BoundingBox()
+	sp, _ := sdf.Sphere3D(bb.Size().MinComponent() * 0.3)
+	return sdf.Transform3D(sp, sdf.Translate3d(bb.Center()))
 }
 
 func sameTriangles(a, b []*sdf.Triangle3) bool {
